@@ -73,7 +73,6 @@ func TestVerifC18ParSigDB(t *testing.T) {
 	defer r.Finish()
 	for _, u := range alias.SignedUnits(t) {
 		if u.Duty == core.DutyUnknown {
-			r.Count("types_without_duty_skipped", 1)
 			continue
 		}
 		master := u.Gen().(core.SignedData)
